@@ -10,7 +10,7 @@
    The specification side (AST, printer, denotation) lives in harness/tokast.py; the oracle compares it with the
    implementation on exhaustive small and random deep ASTs on every run. *)
 From Coq Require Import List ZArith QArith Ascii String Bool.
-From GBS Require Import Model.PyStr Model.Num Model.Bond Model.Token Src.SrcBond Proofs.BondP Proofs.TokenP Model.DistFam Src.SrcDist Model.Stoch Proofs.TotalP Proofs.StochP Model.Mol Proofs.MolP Src.SrcDescr Proofs.DescrSrcP Src.SrcToken Proofs.TokenSrcP Src.SrcStochParse Proofs.StochParseSrcP.
+From GBS Require Import Model.PyStr Model.Num Model.Bond Model.Token Src.SrcBond Proofs.BondP Proofs.TokenP Model.DistFam Src.SrcDist Model.Stoch Proofs.TotalP Proofs.StochP Model.Mol Proofs.MolP Src.SrcDescr Proofs.DescrSrcP Src.SrcToken Proofs.TokenSrcP Src.SrcStochParse Proofs.StochParseSrcP Src.SrcMolParse Proofs.MolParseSrcP.
 Import ListNotations.
 Open Scope Z_scope.
 
@@ -73,6 +73,12 @@ Theorem C02_parsers_are_source : forall (valid_atom : str -> bool),
   (forall text, parse_stoch_src valid_atom text = parse_stoch valid_atom text).
 Proof. intros va. split; [exact parse_descr_is_source|]. split; [exact (parse_token_is_source va)|exact (parse_stoch_is_source va)]. Qed.
 Print Assumptions C02_parsers_are_source.
+
+Theorem C02_molecule_parser_is_source : forall (valid_atom : str -> bool) (fprint : num -> str),
+  (forall text, parse_molecule_src valid_atom fprint text = parse_molecule valid_atom fprint text) /\
+  (forall raw, parse_mixture_src raw = parse_mixture raw).
+Proof. intros va fp. split; [exact (parse_molecule_is_source va fp)|exact parse_mixture_is_source]. Qed.
+Print Assumptions C02_molecule_parser_is_source.
 
 Example C02_example_branch_after_branch :
   summary "[<]CC(C)([>])C(=O)OC" = Some [(lit "<", Some 0, OSingle); (lit ">", Some 1, OSingle)].
